@@ -4,17 +4,16 @@
 // on the real cocls::limited_queue<T>, comparing the projection of the real object with the
 // specification's state after every step.
 //
-// header: {"limit":n, "mode":"poll"|"coro"|"all", "pmode":"poll"|"coro"|"all", "item":"int"|"tracked"|"all"}
-//   ("all": the scenario is executed once per variant of that field)
-//   mode  = coro    : every pop future is awaited by a consumer coroutine
-//   pmode = coro    : every push future is awaited by a producer coroutine
-//   item  = int     : cocls::limited_queue<int> (default containers, std::mutex)
-//   item  = tracked : limited_queue<Tracked, CheckedQueue x3, CheckedLock>: an item type whose live
-//                     instances are counted, and -- through the library's Queue/Lock template
-//                     parameters -- containers that report every access made without the lock and a lock
-//                     that reports misuse; coroutines report being resumed while the lock is held.
-//                     This binds the specification's grain (all state changes inside the critical
-//                     section, resolutions of other parties' promises outside) to the code.
+// header: {"limit":n, "variants":["<item>/<mode>/<pmode>", ...]}   the scenario is executed once per variant
+//   mode  = poll|coro : coro = every pop future is awaited by a consumer coroutine
+//   pmode = poll|coro : coro = every push future is awaited by a producer coroutine
+//   item  = int       : cocls::limited_queue<int> (default containers, std::mutex)
+//   item  = tracked   : limited_queue<Tracked, CheckedQueue x3, CheckedLock>: an item type whose live
+//                       instances are counted, and -- through the library's Queue/Lock template
+//                       parameters -- containers that report every access made without the lock and a
+//                       lock that reports misuse; coroutines report being resumed while the lock is held.
+//                       This binds the specification's grain (all state changes inside the critical
+//                       section, resolutions of other parties' promises outside) to the code.
 // projection:
 //   {"blocked":[{"push":id,"v":item}...], "destroyed", "fut":[{"st","v"}...], "items":[...], "limit",
 //    "live":[live instances of value 1..npush], "npop", "npush", "pfut":["ready"|"pending"|"done"|"exc"|"canceled"...],
@@ -357,23 +356,30 @@ struct World {
     }
 };
 
-// a header field may name one variant or "all": the scenario is then executed once per variant
-static std::vector<std::string> variants(const Scenario &sc, const char *key, const char *a, const char *b) {
-    std::string v = sc.hdr.at(key).as_str(a);
-    if (v == "all") return {a, b};
-    return {v};
+// "variants": ["item/mode/pmode", ...] -- the scenario is executed once per listed variant
+struct VarSpec { std::string item, mode, pmode; };
+static std::vector<VarSpec> variants(const Scenario &sc) {
+    std::vector<VarSpec> out;
+    for (const JV &e : sc.hdr.at("variants").l) {
+        std::istringstream ss(e.as_str("int/poll/poll"));
+        VarSpec v;
+        std::getline(ss, v.item, '/');
+        std::getline(ss, v.mode, '/');
+        std::getline(ss, v.pmode, '/');
+        out.push_back(v);
+    }
+    if (out.empty()) out.push_back({"int", "poll", "poll"});
+    return out;
 }
 
 int main() {
     return replay_main(std::cin, [](const Scenario &sc, Reporter &rep) {
-        for (const std::string &item : variants(sc, "item", "int", "tracked"))
-            for (const std::string &mode : variants(sc, "mode", "poll", "coro"))
-                for (const std::string &pmode : variants(sc, "pmode", "poll", "coro")) {
-                    if (rep.failed()) return;
-                    Variant v{mode == "coro", pmode == "coro"};
-                    if (item == "tracked") { World<Tracked> w; w.run(sc, rep, v); }
-                    else { World<int> w; w.run(sc, rep, v); }
-                    if (rep.failed()) printf("#variant %s item=%s mode=%s pmode=%s\n", sc.id.c_str(), item.c_str(), mode.c_str(), pmode.c_str());
-                }
+        for (const VarSpec &vs : variants(sc)) {
+            if (rep.failed()) return;
+            Variant v{vs.mode == "coro", vs.pmode == "coro"};
+            if (vs.item == "tracked") { World<Tracked> w; w.run(sc, rep, v); }
+            else { World<int> w; w.run(sc, rep, v); }
+            if (rep.failed()) printf("#variant %s %s/%s/%s\n", sc.id.c_str(), vs.item.c_str(), vs.mode.c_str(), vs.pmode.c_str());
+        }
     });
 }
